@@ -31,10 +31,15 @@ func init() {
 		if err := cfg.Validate(); err != nil {
 			return nil, err
 		}
-		kv := &c11kv{KeyValue: sorted.NewMemoryKeyValue(), got: make(chan string, 64)}
 		c11kvMu.Lock()
+		defer c11kvMu.Unlock()
+		if kept := c11kvKeep[name]; kept != nil { // a restart that keeps its meta index (the documented leveldb configuration)
+			delete(c11kvKeep, name)
+			c11kvs[name] = kept
+			return kept, nil
+		}
+		kv := &c11kv{KeyValue: sorted.NewMemoryKeyValue(), got: make(chan string, 64)}
 		c11kvs[name] = kv
-		c11kvMu.Unlock()
 		return kv, nil
 	})
 }
@@ -51,9 +56,13 @@ type c11kv struct {
 }
 
 var (
-	c11kvMu sync.Mutex
-	c11kvs  = map[string]*c11kv{}
+	c11kvMu   sync.Mutex
+	c11kvs    = map[string]*c11kv{}
+	c11kvKeep = map[string]*c11kv{}
 )
+
+// Close is a no-op: the same index may be handed to the next incarnation of the store
+func (k *c11kv) Close() error { return nil }
 
 func (k *c11kv) Get(key string) (string, error) {
 	v, err := k.KeyValue.Get(key)
@@ -615,19 +624,30 @@ func c11Scenario(c *ctx, dir string, si int) {
 				e.drainEvents(0)
 				e.checkpoint("after receives", sample(3))
 			}
-			if c.rng.Intn(150) == 0 || i == n {
-				// restart with a fresh meta index (always at the end)
+			if c.rng.Intn(60) == 0 || i == n {
+				// restart, keeping the meta index or with a fresh one (always fresh at the end)
 				e.settle()
 				e.drainEvents(0)
 				if mv, _, _, _ := e.views(); len(mv) > 100 {
 					e.loose = true // more than SmallMetaCountLimit meta blobs: the start-up will compact, in an order we cannot see
+				}
+				warm := i != n && e.kv != nil && c.rng.Intn(2) == 0
+				if warm {
+					c11kvMu.Lock()
+					c11kvKeep[fmt.Sprintf("%s-%d", e.tag, e.opens)] = e.kv
+					c11kvMu.Unlock()
 				}
 				if err := e.open(); err != nil {
 					c.violation(len(c.casesBuf), "c11-restart-failed", fmt.Sprintf("restart over untampered stores failed: %v", err), e.human)
 					break
 				}
 				e.ops = append(e.ops, "HRestart")
-				e.human = append(e.human, "restart with an empty meta index")
+				if warm {
+					e.human = append(e.human, "restart keeping the meta index")
+					c.count("steps", "restart keeping the index")
+				} else {
+					e.human = append(e.human, "restart with an empty meta index")
+				}
 				e.settle()
 				e.drainEvents(0)
 				c.count("steps", "restart")
